@@ -666,6 +666,16 @@ def prepare_signature(g, thr, cls):
                 continue
             # exactly one of each
             if not (len(news) == 1 and len(pushes) == 1 and len(maps) == 2 and len(bim) == 1):
+                # steps handed to a helper member function (registerPart(...)) are not followed: undecided, not a defect
+                deleg = []
+                for j in ids:
+                    n = g.nodes[j]
+                    if n["k"] == "call" and n.get("ck") == "method" and g.nodes[n["obj"]]["k"] == "this" if n.get("obj") is not None else False:
+                        cf_ = thr.db.callee_fn(n) if hasattr(thr, "db") else None
+                        if cf_ is not None and cf_.body is not None and cf_.body >= 0 and not cf_.d.get("const"):
+                            deleg.append(cf_.qn)
+                if deleg and len(news) <= 1 and len(pushes) <= 1 and len(maps) <= 2 and len(bim) <= 1:
+                    raise AnalysisBroken("%s: part bookkeeping is delegated to %s (helper not followed)" % (g.qn, ", ".join(sorted(set(deleg)))))
                 problems.append("bookkeeping steps are not performed exactly once each (new %d, push %d, map writes %d, bimap inserts %d)" % (len(news), len(pushes), len(maps), len(bim)))
                 continue
             c = news[0][1][2] if news[0][1][0] == "new" else None
